@@ -245,6 +245,7 @@ def run(ck):
                                  dict(base, kind="stale-global-after-spawn", units=payload, got=got), tag="probe")
             else:
                 distinct.add(("spawn-probe", jit))
+                ck.cov["spawn_probe_new_thread_saw_assignment"] = ck.cov.get("spawn_probe_new_thread_saw_assignment", 0) + 1
         if kind == "recycled-define":
             fails = recycled_define_failures(d)
             answered = sum(1 for r in d.get("res") or [] for v in (r.get("ok") or []) if v.startswith("('\"c15-"))
